@@ -12,6 +12,7 @@ from .core import Sink, CheckerError, Obligation
 from .cexec import CExec
 
 VERIF = os.path.dirname(os.path.dirname(os.path.abspath(__file__)))
+OUT = os.environ.get("PVC_OUT", VERIF)      # evidence/ and replays/ go here (scratch runs against seeded changes redirect it)
 REPO = cfront.REPO
 
 
@@ -218,7 +219,7 @@ class Run:
         missing = [n for n, m in self.lock.items() if n not in names and m.get("kind") in ("post", "preserve", "establish", "equiv", "lemma", "sum", "deriv", "cont", "thermo", "doc", "finite", "vertex", "race")]
         if missing:
             raise CheckerError("obligations in the lock file are no longer generated (renamed or deleted code?): %s" % missing[:5])
-        rep_dir = os.path.join(VERIF, "replays", self.pid)
+        rep_dir = os.path.join(OUT, "replays", self.pid)
         if os.path.isdir(rep_dir):
             import shutil
             shutil.rmtree(rep_dir, ignore_errors=True)
@@ -335,6 +336,6 @@ class Run:
             "wall_s": round(time.time() - self.t0, 2),
             "violations": nviol,
         }
-        os.makedirs(os.path.join(VERIF, "evidence"), exist_ok=True)
-        with open(os.path.join(VERIF, "evidence", "%s.json" % self.pid), "w") as f:
+        os.makedirs(os.path.join(OUT, "evidence"), exist_ok=True)
+        with open(os.path.join(OUT, "evidence", "%s.json" % self.pid), "w") as f:
             json.dump(ev, f, indent=1, default=str)
